@@ -13,7 +13,9 @@ LEVEL_TEXT = ("Theorems in Coq (Props/C17.v): for every content, recipient list 
               "PKCS7Encrypt(SM2)/Decrypt(SM2) returns the content to every listed recipient, an error to a certificate that is not listed and "
               "the key-transport error to a listed certificate with another key; Verify accepts exactly when every signer's digest attribute, "
               "DER SET OF attributes / content signature, certificate lookup and algorithm lookup succeed (algorithm tables generated from "
-              "pkcs7.go: both SM3 OIDs map to SM3); unpad total and inverse to pad; PKCS#12 decoding passes getSafeContents only with "
+              "pkcs7.go: both SM3 OIDs map to SM3); the signing side (NewSignedData / AddSigner with sorted signed attributes / Finish) produces, for every content, "
+              "signer set with distinct certificates and extra attributes, signed data that Verify accepts (relative to the correctness of the signature scheme - for SM2 "
+              "discharged by C01's Sign-then-Verify theorem - and the DER codecs), and the same signer infos around another content are accepted only on a digest collision; unpad total and inverse to pad; PKCS#12 decoding passes getSafeContents only with "
               "HMAC(KDF(password)) matching the received authenticated safe; the PKCS#12 KDF model equals RFC 7292 B.2; BMPString encoding "
               "round-trips; RC2 decrypt(encrypt(b)) = b for all keys and blocks. The real packages are run on round trips, strangers, wrong "
               "keys, wrong passwords, altered content/attribute/signature and single-byte corruptions, decided by the predicate.")
@@ -37,7 +39,7 @@ LEVEL_NOTE = ("C17_envelope_roundtrip_sm2 composes the envelope theorem with the
               "representable as BMPString). Enveloped data with DES-CBC carries no integrity: corrupted ciphertext may decrypt to other "
               "content (recorded; the property does not promise otherwise).")
 TRUSTED_BASE = [
-    "models coq/P7/P7Model.v, coq/P12/MacModel.v (P7Model.Verify: extracted and run on the pieces the library decoded, compared with the real Verify, op VER; envelope recipient selection: extracted Decrypt compared with the real DecryptSM2 on rewritten recipient lists, op SEL; MAC gate / whole-container model: tied by the black-box runs only), coq/P12/PbkdfModel.v, coq/P12/BmpModel.v, coq/P12/RC2Model.v (tied by differential runs of the extracted models, leg c17m), coq/Dec/ByteModels.v pad/unpad (tied by C18's differential run); all written by hand from the Go sources",
+    "models coq/P7/P7Model.v, coq/P12/MacModel.v (P7Model.Verify: extracted and run on the pieces the library decoded, compared with the real Verify, op VER; signing side P7/P7SignModel.v: signer info structure compared with what AddSigner writes, op SGN; envelope recipient selection: extracted Decrypt compared with the real DecryptSM2 on rewritten recipient lists, op SEL; MAC gate / whole-container model: tied by the black-box runs only), coq/P12/PbkdfModel.v, coq/P12/BmpModel.v, coq/P12/RC2Model.v (tied by differential runs of the extracted models, leg c17m), coq/Dec/ByteModels.v pad/unpad (tied by C18's differential run); all written by hand from the Go sources",
     "extraction: ExtrOcamlBasic only; runner ocaml/p12/main.ml; the PKCS#12 KDF is compared with a 20-byte toy hash (Go twin in harness/cmd/c17m) because SHA-1 has no model here; hook files pkcs12/verif_p12_verif.go (bmpString, decodeBMPString, pbkdf) and x509/verif_decoders_verif.go (VerifP7Signers, VerifP7HashByName, VerifP7CheckSignature: the pieces Verify works on)",
     "translator targets 'pkcs7' (getHashForOID, getSignatureAlgorithmByHash, decrypt OID guard), 'rc2tables' (piTable), 'dec'",
     "Go driver harness/cmd/c17 (builds SM2 signed data with encoding/asn1 using copies of the structures of pkcs7.go; fixed test keys)",
@@ -66,6 +68,61 @@ def nontrivial(f):
 
 def _unhex(s):
     return b"" if s in ("-", ".", "") else bytes.fromhex(s)
+
+
+
+def _tlv(b, off):
+    """(tag, content start, content end) of the DER element at off (definite lengths)"""
+    tag = b[off]
+    l = b[off + 1]
+    off += 2
+    if l & 0x80:
+        n = l & 0x7f
+        l = int.from_bytes(b[off:off + n], "big")
+        off += n
+    return tag, off, off + l
+
+
+def _children(b, lo, hi):
+    out = []
+    while lo < hi:
+        tag, cs, ce = _tlv(b, lo)
+        out.append((tag, lo, cs, ce))
+        lo = ce
+    return out
+
+
+def _enveloped_parts(b):
+    """contentInfo{oid, [0]{ envelopedData{version, SET recipientInfos, eci{oid, alg{oid, params}, [0] content}}}}"""
+    _, cs, ce = _tlv(b, 0)
+    ci = _children(b, cs, ce)
+    _, cs, ce = _tlv(b, ci[1][2])                 # envelopedData SEQUENCE inside [0]
+    ed = _children(b, cs, ce)
+    return ed
+
+
+def _des_malleable_range(b):
+    """byte positions of the IV (algorithm parameters) and the encrypted content of a DES-CBC enveloped data"""
+    try:
+        ed = _enveloped_parts(b)
+        eci = _children(b, ed[2][2], ed[2][3])
+        alg = _children(b, eci[1][2], eci[1][3])
+        return alg[1][1], eci[2][3]               # from the parameters element to the end of the encrypted content
+    except Exception:
+        return 0, 0
+
+
+def _in_rsa_wrapped_key(b, pos):
+    """RSA PKCS#1 v1.5 key transport has no check value: a corrupted wrapped key may unwrap to another content key"""
+    try:
+        ed = _enveloped_parts(b)
+        for ri in _children(b, ed[1][2], ed[1][3]):
+            parts = _children(b, ri[2], ri[3])
+            if parts[-1][2] <= pos < parts[-1][3]:
+                return True
+    except Exception:
+        pass
+    return False
 
 
 def p12_kdf_rfc7292(salt, password, r, ID, n, u=20, v=64):
@@ -133,11 +190,45 @@ def predicate(f, io):
     if op == "PL":
         return (io[0] == "same"), "PKCS#12 round trip with a long password failed (%s)" % io[0]
     if op == "SEL":
-        # recipient selection: decided by comparison with the extracted model of Decrypt; a different plaintext is a failure
-        return (io[0] in ("ok", "err")), "enveloped data with a rewritten recipient list decrypted to different content"
+        # recipient selection: compared with the extracted model of Decrypt, and decided here from the list itself: the first
+        # recipient info with our issuer and serial is the one the property talks about - no such entry: an error; its wrapped
+        # key is ours (K): the content; it is not (B): an error.  A different plaintext is always a failure.
+        if io[0] not in ("ok", "err"):
+            return False, "enveloped data with a rewritten recipient list decrypted to different content"
+        ours = f[5].lower()
+        first = None
+        for ent in ([] if f[6] == "-" else f[6].split(",")):
+            serial, issuer, verdict = ent.split(":")
+            if (serial + ":" + issuer).lower() == ours:
+                first = verdict
+                break
+        want = "ok" if first == "K" else "err"
+        if io[0] != want:
+            return False, ("decrypting with a certificate that is %s gave %s" %
+                           ("not among the recipients" if first is None else
+                            ("listed with its own wrapped key" if first == "K" else "listed with a key wrapped for somebody else"), io[0]))
+        return True, ""
+    if op == "SGN":
+        # the signing side: structure decided by comparison with the extracted model of AddSigner; independently, the signed
+        # messageDigest attribute must be the OCTET STRING of the digest of the content (SM3 for an SM2 key, SHA-1 for RSA)
+        if io[0] != "ok" or len(io) < 4:
+            return False, "signed data made by AddSigner could not be read back"
+        want = (f[4] if f[2] == "sm2" else f[3]).lower()
+        mds = [a.split("~")[1].lower() for a in io[3].split("+") if a.split("~")[0] == "1.2.840.113549.1.9.4"]
+        n = len(want) // 2
+        if ("04%02x%s" % (n, want)) not in mds:
+            return False, "AddSigner wrote a messageDigest attribute that is not the digest of the content"
+        return True, ""
     if op == "VER":
-        # signed-data verification logic: decided by comparison with the extracted model of Verify
-        return (io[0] in ("ok", "err")), "Verify did not return"
+        # signed-data verification logic: compared with the extracted model of Verify; where the property states the outcome
+        # (exp=ok: genuine; exp=err: other content, signer certificate missing, signature altered) it is demanded here
+        if io[0] not in ("ok", "err"):
+            return False, "Verify did not return"
+        exp = [x[4:] for x in f if x.startswith("exp=")]
+        if exp and exp[0] in ("ok", "err") and io[0] != exp[0]:
+            return False, ("genuine signed data does not verify" if exp[0] == "ok"
+                           else "signed data with altered content, missing signer certificate or altered signature verifies")
+        return True, ""
     if op in ("RC2", "BMP", "BMD", "KDF"):
         # PKCS#12 primitives: decided by comparison with the extracted models (proved against RFC 7292 B.2 / inverse laws)
         return (io[0] in ("ok", "err")), "PKCS#12 primitive " + op + " did not return"
@@ -208,6 +299,13 @@ def predicate(f, io):
     if op == "EC":
         if io[0] == "diff" and f[2] == "gcm":
             return False, "corrupted AES-GCM enveloped data decrypted to different content"
+        if io[0] == "diff":
+            # DES-CBC carries no integrity: a changed ciphertext or IV byte may decrypt to other content.  Anything else
+            # (recipient identity, algorithm identifiers, lengths, the SM2-wrapped key, which has its own check value) must not.
+            lo, hi = _des_malleable_range(_unhex(f[7]))
+            pos = int(f[5])
+            if not (lo <= pos < hi or (f[3] == "rsa" and _in_rsa_wrapped_key(_unhex(f[7]), pos))):
+                return False, ("a corrupted byte outside the DES-CBC ciphertext and IV (position %d) changed the decrypted content" % pos)
         return True, ""
     return False, "unknown case"
 
